@@ -322,7 +322,7 @@ let () =
         let w = bytes_of inp in
         let toks = List.map (function L [r; k] -> (n_of_int (ai r), nat_of_int (ai k)) | _ -> failwith "tok") toks in
         Printf.printf "validate %s\n" (if validate prog (n_of_int (ai sc)) (ab bol) w toks then "OK" else "FAIL")
-      | L [A ("stream" | "sessions" as which); fuel; L inputs] ->
+      | L [A ("stream" | "sessions" | "conserve" as which); fuel; L inputs] ->
         let f = field "stream_prog" c in
         let op_of = function
           | L [A "begin"; s] -> OBegin (n_of_int (ai s))
@@ -344,6 +344,13 @@ let () =
                    sp_acts = (fun r -> match List.assoc_opt (int_of_n r) acts with Some o -> o | None -> []);
                    sp_eof = (fun s -> List.assoc_opt (int_of_n s) eofs);
                    sp_lineno = ab (List.hd (field "lineno" f)) } in
+        if which = "conserve" then begin
+          (* C08_checked_runs_are_instances: do all steps keep yytext defined, and is consumed ++ unread the input? *)
+          let srcs = List.map bytes_of inputs in
+          let (ok, st) = run_ok (nat_of_int (ai fuel)) sp (sm_init srcs) in
+          let eq = (st.s_done @ unread st) = List.concat srcs in
+          Printf.printf "conserve ok=%b eq=%b\nEND\n" ok eq
+        end else
         let evs =
           if which = "stream" then sm_run (nat_of_int (ai fuel)) sp (sm_init (List.map bytes_of inputs))
           else begin
